@@ -278,7 +278,7 @@ def generate(ctx):
             case = {'n': n, 'c': c}
             ctx.case('chunk', case, n >= 1 and c >= 2, tags=['chunks:' + ('0' if c == 0 else '1' if c == 1 else 'le-n' if c <= n else 'gt-n'), 'n:' + ('0' if n == 0 else 'pos')])
             suite_chunk(ctx, case)
-    for q in range(ctx.n(40, 400)):
+    for q in range(ctx.n(40, 1200)):
         ctx.check_time()
         calls = []
         for _ in range(rng.randint(2, 6)):
@@ -299,7 +299,7 @@ def generate(ctx):
         ctx.case('sequence', case, True, tags=['sequence:%d' % len(calls), 'chunks:%d' % case['c']])
         suite_sequence(ctx, case)
     nmany = ctx.n(4, 24)
-    for q in range(ctx.n(150, 2500) + nmany):
+    for q in range(ctx.n(150, 8000) + nmany):
         ctx.check_time()
         case = gen_calc(rng, big=(ctx.tier != 'quick' and q % 3 == 0), many=q < nmany)
         ctx.case('calc', case, case['c'] > 1 and case['threads'] > 1,
